@@ -33,12 +33,13 @@ def setup_symbolic():
 
 
 class Al:
-    def __init__(self, i, s, e, sec=False, sup=False):
+    def __init__(self, i, s, e, sec=False, sup=False, unmapped=False):
         self.i = i
         self.reference_start = s
         self.reference_end = e
         self.is_secondary = sec
         self.is_supplementary = sup
+        self.is_unmapped = unmapped          # a placed unmapped record (flag 4 with RNAME/POS): pysam gives reference_end None
         self.reference_id = 0
         self.query_name = "r%d" % i
 
@@ -53,7 +54,10 @@ class FakeBam:
 
     def fetch(self, chr_id, start, end, multiple_iterators=False):
         for a in self.als:
-            if a.reference_start < end and a.reference_end > start:
+            if a.is_unmapped:
+                if start <= a.reference_start < end:      # placed unmapped records are returned at their position
+                    yield a
+            elif a.reference_start < end and a.reference_end > start:
                 yield a
 
     def get_reference_length(self, chr_id):
@@ -90,7 +94,7 @@ def run_collector(als, high_memory):
     return col, delivered
 
 
-def h_split(n, max_len, universe=UNIVERSE):
+def h_split(n, max_len, universe=UNIVERSE, with_unmapped=False):
     def fn(g):
         als = []
         prev = None
@@ -101,21 +105,29 @@ def h_split(n, max_len, universe=UNIVERSE):
                 g.add(prev <= s)
             prev = s
             als.append(Al(i, s, s + ln, bool(g.bool("secondary%d" % i)) if i == 0 else False, False))
+        mapped = list(als)
+        if with_unmapped:
+            # a placed unmapped record somewhere in the coordinate-sorted stream: it is no alignment, and it must not stop the run
+            k_ = g.choice("unmapped_record_after", n + 1)
+            pos_ = als[k_ - 1].reference_start if k_ else 0
+            als = als[:k_] + [Al(n, pos_, None, False, False, True)] + als[k_:]
         with Scaled():
             res = {}
             for hm in (False, True):
                 col, delivered = call(g, run_collector, als, hm)
                 res[hm] = delivered
-                for a in als:
+                for a in mapped:
                     got = any(any(x is a for x in lst) for _, lst in delivered)
                     g.check(got, "every alignment is delivered to at least one processed region",
                             detail={"high_memory": hm, "alignment": a.i, "regions": [str(r) for r, _ in delivered]})
                 for region, lst in delivered:
                     for a in lst:
+                        if a.is_unmapped:
+                            continue
                         g.check(AND(a.reference_start <= region[1], region[0] <= a.reference_end - 1),
                                 "an alignment handed to a region overlaps it", detail={"high_memory": hm})
                     g.check(len({x.i for x in lst}) == len(lst), "no alignment is handed twice to the same region")
-                n_sec = sum(1 for a in als if a.is_secondary)
+                n_sec = sum(1 for a in mapped if a.is_secondary)
                 g.check(col.alignment_stat_counter.stats_dict[ap.AlignmentType.secondary] == n_sec and
                         col.alignment_stat_counter.stats_dict[ap.AlignmentType.primary] == n - n_sec,
                         "alignment statistics = per-category record counts")
@@ -194,6 +206,8 @@ def instances(tier, seed):
     for n, ml in ([(1, 6), (2, 6), (3, 5)] if q else [(1, 8), (2, 8), (3, 8), (4, 6)]):
         out.append(Instance("split[n=%d,len<=%d]" % (n, ml), h_split(n, ml), F,
                             "%d sorted alignments, start in [0,%d), length <= %d, scaled constants" % (n, UNIVERSE, ml), weight=100 ** n, budget_s=2400 if q else 7200))
+    out.append(Instance("split_with_unmapped_record[n=2]", h_split(2, 6, 14, True), F,
+                        "2 sorted alignments and one placed unmapped record at any position of the stream, scaled constants", weight=100 ** 2, budget_s=1200))
     if q:
         # three alignments chained over four bins (needs length 6): the smallest shape with a tail sub-region that ends inside a bin
         out.append(Instance("split[n=3,len<=6,start<14]", h_split(3, 6, 14), F,
